@@ -22,5 +22,24 @@ static struct xv_afd_snap xv_afd_snapshot(void)
 }
 static void xv_on_lock(void) { xv_sh_l = xv_afd_snapshot(); }
 static void xv_on_unlock(void) { xv_sh_u = xv_afd_snapshot(); }
+/* the list the contracts talk about: xv_g_n (0..2) heap nodes with ARBITRARY content, linked the way LIST_INSERT_HEAD links them */
+struct active_fd nondet_active_fd_node(void);
+static void xv_afd_make_list(int n)
+{
+    active_fds.lh_first = NULL;
+    struct active_fd *second = NULL;
+    if (n == 2) {
+        second = malloc(sizeof(struct active_fd)); __CPROVER_assume(second != NULL);
+        *second = nondet_active_fd_node();
+        second->elem.le_next = NULL;
+    }
+    if (n >= 1) {
+        struct active_fd *first = malloc(sizeof(struct active_fd)); __CPROVER_assume(first != NULL);
+        *first = nondet_active_fd_node();
+        first->elem.le_next = second; first->elem.le_prev = &active_fds.lh_first;
+        if (second != NULL) second->elem.le_prev = &first->elem.le_next;
+        active_fds.lh_first = first;
+    }
+}
 #define XP_AFD
 #include "contracts/xpoll.h"
